@@ -392,3 +392,181 @@ def c_ldexp(a, e, w, ew, mode="RN"):
     n = e - (1 << ew) if e >> (ew - 1) else e
     n = max(-100000, min(100000, n))
     return encode(x[1] * (Fraction(2) ** n), w, mode)
+
+
+# ---------------------------------------------------------------------------
+# AVX-512 special-purpose float instructions (Intel SDM vol. 2, VGETEXP / VGETMANT / VSCALEF /
+# VFIXUPIMM / VRANGE operation sections), MXCSR.DAZ = 0.
+
+def _quiet(v, w):
+    p = FMT[w][0]
+    return v | (1 << (p - 2))
+
+
+def x86_getexp(a, w):
+    """VGETEXP: floor(log2|x|) as a float; NaN -> QNaN(src), +-inf -> +inf, +-0 -> -inf; denormals are
+    normalised first"""
+    x = decode(a, w)
+    if x[0] == "nan":
+        return _quiet(a, w)
+    if x[0] == "inf":
+        return inf(0, w)
+    if x[0] == "zero":
+        return inf(1, w)
+    return encode(Fraction(_exponent(x[1])), w)
+
+
+def x86_getmant(a, imm, w):
+    """VGETMANT: imm[1:0] interval (0 [1,2); 1 [1/2,2) by exponent parity; 2 [1/2,1); 3 [3/4,3/2) by the
+    fraction's top bit), imm[3:2] sign control (bit0: force positive; bit1: negative source -> QNaN)"""
+    p, emin, emax = FMT[w]
+    mb = p - 1
+    x = decode(a, w)
+    s = a >> (w - 1)
+    sc = (imm >> 2) & 3
+    iv = imm & 3
+    if x[0] == "nan":
+        return _quiet(a, w)
+    rs = 0 if (sc & 1) else s
+    one = (emax << mb)
+    if x[0] in ("zero", "inf"):
+        # SDM: zero and infinity sources return 1.0 with the selected sign (checked before the
+        # negative-operand rule)
+        return (rs << (w - 1)) | one
+    if s and (sc & 2):
+        return qnan(w) | (1 << (w - 1))          # QNaN indefinite
+    q = abs(x[1])
+    e = _exponent(q)
+    frac = q / (Fraction(2) ** e)              # in [1,2)
+    fbits = int((frac - 1) * (1 << mb))        # exact: q has at most p significant bits
+    if iv == 0:
+        be = emax
+    elif iv == 1:
+        be = emax - 1 if (e & 1) else emax
+    elif iv == 2:
+        be = emax - 1
+    else:
+        be = emax - 1 if (fbits >> (mb - 1)) & 1 else emax
+    return (rs << (w - 1)) | (be << mb) | fbits
+
+
+def x86_scalef(a, b, w, mode="RN"):
+    """VSCALEF: a * 2^floor(b), rounded once in the current mode; NaN operands propagate (first source
+    first); (0, +inf) and (inf, -inf) give the QNaN indefinite"""
+    x, y = decode(a, w), decode(b, w)
+    if x[0] == "nan":
+        return _quiet(a, w)
+    if y[0] == "nan":
+        return _quiet(b, w)
+    ind = qnan(w) | (1 << (w - 1))
+    sa = a >> (w - 1)
+    if y[0] == "inf":
+        if y[1] == 0:       # +inf
+            if x[0] == "zero":
+                return ind
+            return inf(sa, w)
+        if x[0] == "inf":   # -inf
+            return ind
+        return zero(sa, w)
+    if x[0] in ("inf", "zero"):
+        return a
+    if y[0] == "zero":
+        n = 0
+    else:
+        v = y[1]
+        n = v.numerator // v.denominator      # floor
+    n = max(-100000, min(100000, n))
+    return encode(x[1] * (Fraction(2) ** n), w, mode, zero_sign=sa)
+
+
+_FIX_CONST = {11: Fraction(1, 2), 12: Fraction(90), 9: Fraction(-1), 10: Fraction(1)}
+
+
+def x86_fixupimm(dest, src, tbl, w):
+    """VFIXUPIMM: classify src (QNaN 0, SNaN 1, zero 2, +1 3, -inf 4, +inf 5, negative 6, positive 7), take
+    the 4-bit response from the table, produce the response value"""
+    p, emin, emax = FMT[w]
+    mb = p - 1
+    x = decode(src, w)
+    s = src >> (w - 1)
+    if x[0] == "nan":
+        j = 0 if (src >> (mb - 1)) & 1 else 1
+    elif x[0] == "zero":
+        j = 2
+    elif x[0] == "inf":
+        j = 4 if s else 5
+    elif x[1] == 1:
+        j = 3
+    else:
+        j = 6 if s else 7
+    r = (tbl >> (4 * j)) & 15
+    if r == 0:
+        return dest
+    if r == 1:
+        return src
+    if r == 2:
+        return _quiet(src, w)
+    if r == 3:
+        return qnan(w) | (1 << (w - 1))
+    if r == 4:
+        return inf(1, w)
+    if r == 5:
+        return inf(0, w)
+    if r == 6:
+        return inf(s, w)
+    if r == 7:
+        return zero(1, w)
+    if r == 8:
+        return zero(0, w)
+    if r in _FIX_CONST:
+        return encode(_FIX_CONST[r], w)
+    if r == 13:
+        return 0x3FC90FDB if w == 32 else 0x3FF921FB54442D18        # pi/2
+    big = (((1 << (w - p)) - 2) << mb) | ((1 << mb) - 1)               # MAX_FLOAT
+    return big if r == 14 else big | (1 << (w - 1))
+
+
+def x86_range(a, b, imm, w):
+    """VRANGE with imm[1:0] in {0 min, 1 max} (the abs variants are not modelled: None)"""
+    p, emin, emax = FMT[w]
+    mb = p - 1
+    op = imm & 3
+    sc = (imm >> 2) & 3
+    if op > 1:
+        return None
+    x, y = decode(a, w), decode(b, w)
+
+    def snan(v, d):
+        return d[0] == "nan" and not (v >> (mb - 1)) & 1
+    if snan(a, x):
+        return _quiet(a, w)
+    if snan(b, y):
+        return _quiet(b, w)
+    if y[0] == "nan":
+        tmp = a
+    elif x[0] == "nan":
+        tmp = b
+    elif x[0] == "zero" and y[0] == "zero" and x[1] != y[1]:
+        # SDM table "signed zero comparison": min returns the negative zero, max the positive one
+        neg, pos = (a, b) if x[1] else (b, a)
+        tmp = neg if op == 0 else pos
+    else:
+        def val(d):
+            if d[0] == "inf":
+                return Fraction(10) ** 6000 * (-1 if d[1] else 1)
+            if d[0] == "zero":
+                return Fraction(0)
+            return d[1]
+        vx, vy = val(x), val(y)
+        if op == 0:
+            tmp = a if vx <= vy else b
+        else:
+            tmp = a if vx >= vy else b
+    body = tmp & ((1 << (w - 1)) - 1)
+    if sc == 0:
+        return ((a >> (w - 1)) << (w - 1)) | body
+    if sc == 1:
+        return tmp
+    if sc == 2:
+        return body
+    return (1 << (w - 1)) | body
